@@ -75,6 +75,71 @@ def run_case(ctx, bt, spec):
             ctx.violation("C09/universe-column", "parent universe column %s on date#%d is %r, child index %r" % (kid["name"], i, col[i], cp[i]), rd)
 
 
+def paper_calls_protocol(ctx, bt, n):
+    """`paperseq`: for every sub-strategy of generated nested runs, the dates of the update() calls it receives (with all the
+    repetitions the parent's refreshes cause) and the dates on which its shadow copy was actually stepped, vs the model's
+    `clockDates` (stepped exactly when the child's own clock changes)."""
+    import contextlib
+    from ..leanrun import run_lines
+    c = bt.core
+    lines, meta = [], []
+    for _ in range(n):
+        spec = gen_case(ctx.rng)
+        log = {}
+        papers = {}
+        orig = c.StrategyBase.update
+
+        def w(self, date, data=None, inow=None, _orig=orig):
+            ent = None
+            if getattr(self, "_paper_trade", False) and self.parent is not self and getattr(self, "_paper", None) is not None:
+                try:
+                    d = 0 if (isinstance(date, int) and date == 0) else int(self.data.index.get_loc(date))
+                except Exception:
+                    d = None
+                if d is not None:
+                    ent = log.setdefault(id(self), {"obj": self, "calls": [], "stepped": [], "open": False})
+                    ent["calls"].append(d)
+                    ent["open"] = True
+                    papers[id(self._paper)] = ent
+            pe = papers.get(id(self))
+            if pe is not None and pe["obj"]._paper is self and pe["open"]:
+                pe["open"] = False          # first update of the shadow copy inside this call of the child
+                pe["stepped"].append(pe["calls"][-1])
+            try:
+                return _orig(self, date, data, inow)
+            finally:
+                if ent is not None:
+                    ent["open"] = False
+        c.StrategyBase.update = w
+        try:
+            b, data, add = R.build_backtest(bt, spec)
+            b.run()
+            # a few extra refreshing reads / re-updates by the user after the run: repetitions of the last date
+            for _k in range(ctx.rng.randint(0, 3)):
+                b.strategy.update(b.strategy.now)
+        except Exception as e:  # noqa
+            ctx.count("paperseq:program-raised:" + E.classify_exc(e))
+        finally:
+            c.StrategyBase.update = orig
+        for ent in log.values():
+            calls = ent["calls"]
+            lines.append("paperseq N %s" % E.tL(calls, str))
+            meta.append((spec, ent["obj"].full_name, calls, ent["stepped"]))
+            ctx.count("paperseq:children")
+            ctx.count("paperseq:update-calls", len(calls))
+            ctx.count("paperseq:repeated-calls", len(calls) - len(set(calls)))
+    outs = run_lines(lines) if lines else []
+    nd = 0
+    for (spec, name, calls, stepped), o in zip(meta, outs):
+        toks = o.split()
+        model = [int(x) for x in toks[2:]] if toks and toks[0] == "ok" else None
+        if model != stepped:
+            nd += 1
+            ctx.disagreement("corr:paperseq:%s" % ("length" if model is None or len(model) != len(stepped) else "dates"),
+                             {"child": name, "calls": calls[:60], "real_stepped": stepped[:60], "model": (model or [])[:60]}, {"spec": spec, "child": name})
+    ctx.protocols.append(("paperseq", len(meta), nd))
+
+
 def run(ctx, bt):
     for _ in range(ctx.scale(70, 1500)):
         spec = gen_case(ctx.rng)
@@ -82,6 +147,9 @@ def run(ctx, bt):
         if len(ctx.samples) < 2:
             ctx.sample({"tree": spec["tree"], "integer": spec["integer"], "comm": spec["comm"]})
         run_case(ctx, bt, spec)
+    from ..runs_run import run_days_protocol
+    run_days_protocol(ctx, bt, ctx.scale(12, 300), None, "btday[C09]:root-and-shadow-copies", make_spec=gen_case)
+    paper_calls_protocol(ctx, bt, ctx.scale(15, 300))
 
 
 def search(ctx, bt):
